@@ -44,6 +44,11 @@ from model_diagnostics.scoring import (ElementaryScore, GammaDeviance, Homogeneo
 SHARD = 200
 FUN_COQ = {"mean": "IFmean", "median": "IFmedian", "expectile": "IFexpectile", "quantile": "IFquantile"}
 
+def relevel(sf, level):
+    sf.level = level
+    return sf
+
+
 # name -> (constructor, Coq score kind, domain of (y, z), weights possible)
 CONFIGS = {
     "SquaredError": (lambda: SquaredError(), "KSq", "real"),
@@ -52,10 +57,11 @@ CONFIGS = {
     "LogLoss": (lambda: LogLoss(), "KTable", "unit"),
     "PinballLoss(0.5)": (lambda: PinballLoss(level=0.5), "KPin 0.5", "real"),
     "PinballLoss(0.25)": (lambda: PinballLoss(level=0.25), "KPin 0.25", "real"),
-    "PinballLoss(0.8)": (lambda: PinballLoss(level=0.8), "KPin 0.8", "real"),
+    # built at level 1/2 and re-parameterised through the public attribute: the scorer (its functional included) is read at call time
+    "PinballLoss(0.8)": (lambda: relevel(PinballLoss(level=0.5), 0.8), "KPin 0.8", "real"),
     "HES(2,0.2)": (lambda: HomogeneousExpectileScore(degree=2, level=0.2), "KHes2 0.2", "real"),
     "HES(1,0.25)": (lambda: HomogeneousExpectileScore(degree=1, level=0.25), "KTable", "count"),
-    "HES(3,0.7)": (lambda: HomogeneousExpectileScore(degree=3, level=0.7), "KTable", "real"),
+    "HES(3,0.7)": (lambda: relevel(HomogeneousExpectileScore(degree=3, level=0.5), 0.7), "KTable", "real"),
     "HQS(1/3,0.3)": (lambda: HomogeneousQuantileScore(degree=1 / 3, level=0.3), "KTable", "pos"),
     "HQS(3,0.1)": (lambda: HomogeneousQuantileScore(degree=3, level=0.1), "KHqs3 0.1", "real"),
     # elementary scores with the threshold on typical data values: the median alias of the SCORING FUNCTION itself
@@ -73,7 +79,14 @@ ELEM_PROBES = [dict(config="Elem(1,median)", y=[0.0, 1.0, 2.0, 1.0, 3.0], cols=[
                # forecasts that differ only from the seventh significant digit on are NOT constant (1e-7 relative >> the 1e-9 tie policy)
                dict(config="SquaredError", y=[0.0, 1.0, 0.0, 1.0, 1.0, 0.0, 1.0, 1.0], cols=[[0.5 + 1e-7 * k for k in range(8)]], w=None, two_d=False),
                dict(config="PoissonDeviance", y=[0.0, 2.0, 1.0, 3.0, 1.0, 4.0], cols=[[1.5 + 2e-7 * k for k in range(6)]], w=[1.0, 2.0, 1.0, 1.0, 2.0, 1.0], two_d=False),
-               dict(config="PinballLoss(0.25)", y=[0.0, 2.0, 1.0, 3.0, 1.0, 4.0], cols=[[1.5 + 2e-7 * k for k in range(6)], [1.0, 1.0, 2.0, 2.0, 3.0, 3.0]], w=None, two_d=True)]
+               dict(config="PinballLoss(0.25)", y=[0.0, 2.0, 1.0, 3.0, 1.0, 4.0], cols=[[1.5 + 2e-7 * k for k in range(6)], [1.0, 1.0, 2.0, 2.0, 3.0, 3.0]], w=None, two_d=True),
+               # pooled blocks whose weights are unequal although first = last = average weight (anything that takes such a
+               # block for "equal weights" recalibrates it with the unweighted functional); anti-ordered and constant forecasts
+               dict(config="HES(2,0.2)", y=[4.0, 3.0, 2.0, 1.0], cols=[[1.0, 2.0, 3.0, 4.0], [2.5, 2.5, 2.5, 2.5]], w=[2.0, 1.0, 3.0, 2.0], two_d=True),
+               dict(config="HES(3,0.7)", y=[1.0, 6.0, 4.0, 2.0, 1.0, 9.0], cols=[[1.0, 2.0, 3.0, 4.0, 5.0, 6.0]], w=[5.0, 3.0, 1.0, 5.0, 3.0, 0.5], two_d=False),
+               dict(config="HES(1,0.25)", y=[4.0, 3.0, 2.0, 1.0, 7.0], cols=[[1.0, 2.0, 3.0, 4.0, 5.0]], w=[1.0, 0.5, 1.5, 1.0, 2.0], two_d=False),
+               dict(config="SquaredError", y=[4.0, 3.0, 2.0, 1.0], cols=[[1.0, 2.0, 3.0, 4.0], [2.5, 2.5, 2.5, 2.5]], w=[2.0, 1.0, 3.0, 2.0], two_d=True),
+               dict(config="PoissonDeviance", y=[4.0, 3.0, 0.0, 1.0], cols=[[1.0, 2.0, 3.0, 4.0]], w=[3.0, 1.0, 5.0, 3.0], two_d=False)]
 
 
 def make_sf(name):
